@@ -72,8 +72,8 @@ type c14Case struct {
 	Feats   []progen.Feat `json:"feats"`
 	Pattern int           `json:"pattern"`
 	// Degenerate is a second GOGARBLE value that selects nothing ("" = not tried)
-	Degenerate string `json:"degenerate,omitempty"`
-	Args    []string      `json:"args"`
+	Degenerate string   `json:"degenerate,omitempty"`
+	Args       []string `json:"args"`
 }
 
 func (c c14Case) spec() progen.Spec {
